@@ -6,7 +6,7 @@
      shared_sym     both directions derive the same key                        -- C14 shared_symmetric (EdAbstractProofs)
    That tampering makes `open` fail is AES-GCM authenticity: no theorem can give it; [tamper_clean] says what the code does WHEN
    `open` fails, and [decoded_only_if_opened] that a plaintext is never returned unless `open` produced it. *)
-From Symv Require Import Base.Bytes Base.BytesLemmas Base.PyOps Sym.EdAbstract Sym.MessageFraming.
+From Symv Require Import Base.Bytes Base.BytesLemmas Base.PyOps Sym.EdAbstract Sym.EdAbstractProofs Sym.MessageFraming.
 From Coq Require Import Lia ZifyBool.
 Open Scope Z_scope.
 
@@ -96,7 +96,7 @@ Proof.
   intros Hk Hiv. unfold sym_encode. rewrite (encode_gcm_parts _ _ _ _ _ Hk). intros E. injection E as <-.
   unfold sym_try_decode. change mf_plain_prefix with [1]. cbn [app nth_error mf_plain_idx mf_deleg_idx].
   change (cmp mf_plain_cmp mf_plain_marker 1) with true. cbn iota. change mf_plain_skip with 1%nat. cbn [skipn].
-  rewrite decode_gcm_parts by (rewrite <- ?shared_sym; assumption). reflexivity.
+  rewrite decode_gcm_parts by first [assumption | rewrite shared_sym; assumption]. reflexivity.
 Qed.
 
 Theorem sym_try_decode_encode_sender a b iv m key e :
@@ -138,20 +138,22 @@ Theorem sym_try_decode_delegation eph node iv remote vrf key other e :
   sym_encode_delegation seal shared public_key_of eph (public_key_of node) iv remote vrf = Ok e ->
   sym_try_decode open shared node other e = Ok (true, remote ++ vrf).
 Proof.
-  intros Hk Hiv. unfold sym_encode_delegation. rewrite (encode_gcm_parts _ _ _ _ _ Hk). intros E. injection E as <-.
-  destruct marker_length as [Hml Hm0].
-  unfold sym_try_decode. change mf_plain_idx with 0%nat. change mf_deleg_idx with 0%nat.
-  assert (H0 : nth_error (mf_delegation_marker ++ public_key_of eph ++ snd (seal key iv (remote ++ vrf)) ++ iv ++ fst (seal key iv (remote ++ vrf))) 0 = Some 254).
+  intros Hk Hiv. destruct marker_length as [Hml Hm0].
+  unfold sym_encode_delegation, sym_try_decode. rewrite (encode_gcm_parts _ _ _ _ _ Hk).
+  set (marker := mf_delegation_marker) in *. clearbody marker.
+  intros E. injection E as <-.
+  change mf_plain_idx with 0%nat. change mf_deleg_idx with 0%nat.
+  assert (H0 : nth_error (marker ++ public_key_of eph ++ snd (seal key iv (remote ++ vrf)) ++ iv ++ fst (seal key iv (remote ++ vrf))) 0 = Some 254).
   { rewrite nth_error_app1 by (rewrite Hml; lia). exact Hm0. }
   rewrite H0. change (cmp mf_plain_cmp mf_plain_marker 254) with false. cbn iota.
   change (cmp mf_deleg_first_cmp mf_deleg_first 254) with true. change mf_deleg_marker_len with 8%nat.
   rewrite mf_firstn_app_exact by exact Hml. change mf_deleg_cmp with Eq. cbn [cmp_beqb andb].
-  replace (beqb mf_delegation_marker mf_delegation_marker) with true by (symmetry; vm_compute; reflexivity). cbn iota.
+  rewrite beqb_refl. cbn iota.
   rewrite Hml. change (Z.to_nat mf_public_key_size) with 32%nat. change (8 + 32)%nat with 40%nat. unfold slice.
-  rewrite (mf_skipn_app_exact mf_delegation_marker _ 8 Hml). change (40 - 8)%nat with 32%nat.
+  rewrite (mf_skipn_app_exact marker _ 8 Hml). change (40 - 8)%nat with 32%nat.
   rewrite mf_firstn_app_exact by apply public_key_length. rewrite public_key_length. cbn [Nat.eqb negb].
   rewrite app_assoc, mf_skipn_app_exact by (rewrite app_length, Hml, public_key_length; reflexivity).
-  rewrite decode_gcm_parts by (rewrite ?shared_sym; assumption). reflexivity.
+  rewrite decode_gcm_parts by first [assumption | rewrite shared_sym; assumption]. reflexivity.
 Qed.
 
 (* ---------------- a plaintext is returned only if `open` produced it; a refusing `open` gives the clean result ---------------- *)
@@ -161,7 +163,7 @@ Proof.
   destruct (shared priv pub) as [e|key]; [discriminate|]. unfold gcm_decrypt.
   destruct ((length iv <? gcm_min_iv)%nat || _); [discriminate|].
   match goal with |- context [open ?k ?i ?t ?c] => destruct (open k i t c) as [m'|] eqn:E; [|discriminate] end.
-  intros H. injection H as <-. now repeat eexists.
+  intros H. injection H as <-. do 4 eexists. exact E.
 Qed.
 
 Theorem sym_decoded_only_if_opened priv pub e m :
@@ -209,7 +211,7 @@ Proof.
   rewrite Hiv, Htag. cbn [Nat.ltb Nat.leb orb gcm_min_iv gcm_min_tag].
   assert (E1 : skipn 16 (skipn 1 e) = skipn 17 e) by (clear; revert e; intros [|x e]; reflexivity).
   assert (E2 : data = skipn 29 e) by (unfold data; clear; revert e; intros [|x e]; reflexivity).
-  rewrite E1, E2, Ho. reflexivity.
+  rewrite E1, E2. fold tag in Ho. rewrite Ho. reflexivity.
 Qed.
 
 (* ---------------- NEM ---------------- *)
@@ -221,7 +223,7 @@ Theorem nem_try_decode_encode a b iv m key t e :
 Proof.
   intros Hk Hiv. unfold nem_encode. rewrite (encode_gcm_parts _ _ _ _ _ Hk). intros E. injection E as <- <-.
   unfold nem_try_decode. change (cmp mf_nem_type_cmp mf_nem_encrypted mf_nem_encrypted) with false. cbn iota.
-  rewrite !decode_gcm_parts by (rewrite <- ?shared_sym; assumption). split; reflexivity.
+  rewrite !decode_gcm_parts by first [assumption | rewrite shared_sym; assumption]. split; reflexivity.
 Qed.
 
 (* deprecated NEM format (salt || iv || CBC ciphertext): decoding first tries AES-GCM on the same bytes; that this attempt is
